@@ -1558,6 +1558,7 @@ def ADC(
     dig_signal = np.round(
         (signal - V_min) / (V_max - V_min) * (2**n - 1)
     ).astype(int)  # quantize signal between 0 and 2**n-1
+    dig_signal = np.clip(dig_signal, 0, 2**n - 1)  # samples outside [V_min, V_max] saturate at the end codes
     
     if otype == 'v':
         dig_signal = (
